@@ -84,4 +84,252 @@ theorem pairwiseDisjoint_spec : ∀ (c : List (List String)), pairwiseDisjoint c
     rw [this] at hm
     simp at hm
 
+/-! ### `norm` is canonical: strictly sorted, same members -/
+
+theorem mem_insertS (x y : String) : ∀ (l : List String), y ∈ insertS x l ↔ y = x ∨ y ∈ l
+  | [] => by simp [insertS]
+  | z :: zs => by
+    simp only [insertS]
+    by_cases h1 : x < z
+    · simp [h1]
+    · by_cases h2 : (x == z) = true
+      · have : x = z := by simpa using h2
+        subst this
+        simp [h1]
+      · simp only [h1, if_false, h2, Bool.false_eq_true, List.mem_cons, mem_insertS x y zs]
+        constructor
+        · rintro (h | h | h)
+          · exact Or.inr (Or.inl h)
+          · exact Or.inl h
+          · exact Or.inr (Or.inr h)
+        · rintro (h | h | h)
+          · exact Or.inr (Or.inl h)
+          · exact Or.inl h
+          · exact Or.inr (Or.inr h)
+
+theorem mem_norm (y : String) : ∀ (s : List String), y ∈ norm s ↔ y ∈ s
+  | [] => by simp [norm]
+  | x :: xs => by
+    have ih := mem_norm y xs
+    simp only [norm, List.foldr_cons] at ih ⊢
+    rw [mem_insertS, ih, List.mem_cons]
+
+theorem sorted_insertS (x : String) : ∀ (l : List String), l.Pairwise (· < ·) → (insertS x l).Pairwise (· < ·)
+  | [], _ => by simp [insertS]
+  | z :: zs, h => by
+    have hz := List.pairwise_cons.mp h
+    simp only [insertS]
+    by_cases h1 : x < z
+    · simp only [h1, if_true]
+      refine List.pairwise_cons.mpr ⟨?_, h⟩
+      intro a ha
+      rcases List.mem_cons.mp ha with rfl | ha
+      · exact h1
+      · exact String.lt_trans h1 (hz.1 a ha)
+    · by_cases h2 : (x == z) = true
+      · simp [h1, h2, h]
+      · simp only [h1, if_false, h2, Bool.false_eq_true]
+        refine List.pairwise_cons.mpr ⟨?_, sorted_insertS x zs hz.2⟩
+        intro a ha
+        rcases (mem_insertS x a zs).mp ha with rfl | ha
+        · have hle : z ≤ a := String.not_lt.mp h1
+          have hne : ¬ a = z := by simpa using h2
+          apply Decidable.by_contra
+          intro hn
+          exact hne (String.le_antisymm (String.not_lt.mp hn) hle)
+        · exact hz.1 a ha
+
+theorem sorted_norm : ∀ (s : List String), (norm s).Pairwise (· < ·)
+  | [] => by simp [norm]
+  | x :: xs => by
+    have ih := sorted_norm xs
+    simp only [norm, List.foldr_cons] at ih ⊢
+    exact sorted_insertS x _ ih
+
+theorem sorted_ext : ∀ (a b : List String), a.Pairwise (· < ·) → b.Pairwise (· < ·) →
+    (∀ x, x ∈ a ↔ x ∈ b) → a = b
+  | [], [], _, _, _ => rfl
+  | [], y :: ys, _, _, h => by have := (h y).mpr List.mem_cons_self; simp at this
+  | x :: xs, [], _, _, h => by have := (h x).mp List.mem_cons_self; simp at this
+  | x :: xs, y :: ys, ha, hb, h => by
+    have hax := List.pairwise_cons.mp ha
+    have hby := List.pairwise_cons.mp hb
+    have hxy : x = y := by
+      have h1 : x ∈ y :: ys := (h x).mp List.mem_cons_self
+      have h2 : y ∈ x :: xs := (h y).mpr List.mem_cons_self
+      rcases List.mem_cons.mp h1 with e | hx
+      · exact e
+      · rcases List.mem_cons.mp h2 with e | hy
+        · exact e.symm
+        · exact absurd (String.lt_trans (hby.1 x hx) (hax.1 y hy)) (String.lt_irrefl y)
+    subst hxy
+    congr 1
+    apply sorted_ext xs ys hax.2 hby.2
+    intro z
+    constructor
+    · intro hz
+      rcases List.mem_cons.mp ((h z).mp (List.mem_cons_of_mem _ hz)) with e | h'
+      · exact absurd (e ▸ hax.1 z hz) (String.lt_irrefl x)
+      · exact h'
+    · intro hz
+      rcases List.mem_cons.mp ((h z).mpr (List.mem_cons_of_mem _ hz)) with e | h'
+      · exact absurd (e ▸ hby.1 z hz) (String.lt_irrefl x)
+      · exact h'
+
+/-- two lists with the same members have the same normal form -/
+theorem norm_ext (a b : List String) (h : ∀ x, x ∈ a ↔ x ∈ b) : norm a = norm b :=
+  sorted_ext _ _ (sorted_norm a) (sorted_norm b) fun x => by rw [mem_norm, mem_norm, h]
+
+/-! ### the gate `process_missing_and_gates` builds from a cover admits what the cover explains -/
+
+/-- a cover member as a child of the OR gate: a leaf, or the AND of its events -/
+def partGate (p : List String) : Gate :=
+  match p with
+  | [a] => .leaf a
+  | _ => .node .and (p.map .leaf)
+
+/-- `OR(AND(group), …)` -/
+def rebuilt (c : List (List String)) : Gate := .node .or (c.map partGate)
+
+theorem mem_union (a b : List String) (x : String) : x ∈ union a b ↔ x ∈ a ∨ x ∈ b := by
+  simp [union, mem_norm]
+
+theorem outcomesL_map (f : List String → Gate) : ∀ (c : List (List String)),
+    outcomesL (c.map f) = c.map fun p => outcomes (f p)
+  | [] => rfl
+  | p :: ps => by simp [outcomesL, outcomesL_map f ps]
+
+theorem outcomesL_leaves : ∀ (p : List String), outcomesL (p.map Gate.leaf) = p.map fun a => [[a]]
+  | [] => rfl
+  | a :: as => by simp [outcomesL, outcomes, outcomesL_leaves as]
+
+/-- one outcome per family: the product is the union -/
+theorem productAll_singletons : ∀ (os : List (List String)),
+    ∃ u, productAll (os.map fun o => [o]) = [u] ∧ ∀ x, x ∈ u ↔ ∃ o ∈ os, x ∈ o
+  | [] => ⟨[], rfl, by simp⟩
+  | o :: os => by
+    obtain ⟨u, hu, hm⟩ := productAll_singletons os
+    refine ⟨union o u, by simp [productAll, hu], ?_⟩
+    intro x
+    rw [mem_union, hm]
+    simp
+
+theorem outcomes_partGate (p : List String) : ∃ o, outcomes (partGate p) = [o] ∧ ∀ x, x ∈ o ↔ x ∈ p := by
+  unfold partGate
+  split
+  · rename_i a
+    exact ⟨[a], rfl, fun x => Iff.rfl⟩
+  · have h := productAll_singletons (p.map fun a => [a])
+    obtain ⟨u, hu, hm⟩ := h
+    refine ⟨u, ?_, ?_⟩
+    · simp only [outcomes, outcomesL_leaves]
+      have e : (p.map fun a => [[a]]) = ((p.map fun a => [a]).map fun o => [o]) := by simp [List.map_map]
+      rw [e]; exact hu
+    · intro x
+      rw [hm]
+      constructor
+      · rintro ⟨o, ho, hx⟩
+        obtain ⟨a, ha, rfl⟩ := List.mem_map.mp ho
+        simp only [List.mem_singleton] at hx
+        exact hx ▸ ha
+      · intro hx
+        exact ⟨[x], List.mem_map.mpr ⟨x, hx, rfl⟩, List.mem_singleton.mpr rfl⟩
+
+theorem sublist_mem_nonEmptySublists {α : Type} : ∀ (l sub : List α), sub.Sublist l → sub ≠ [] →
+    sub ∈ nonEmptySublists l
+  | [], sub, h, hne => by cases h; exact absurd rfl hne
+  | x :: xs, sub, h, hne => by
+    simp only [nonEmptySublists]
+    cases h with
+    | cons _ h' =>
+      exact List.mem_cons_of_mem _ (List.mem_append_right _ (sublist_mem_nonEmptySublists xs sub h' hne))
+    | cons_cons _ h' =>
+      rename_i sub'
+      by_cases he : sub' = []
+      · subst he
+        exact List.mem_cons_self
+      · refine List.mem_cons_of_mem _ (List.mem_append_left _ ?_)
+        exact List.mem_map.mpr ⟨sub', sublist_mem_nonEmptySublists xs sub' h' he, rfl⟩
+
+theorem mem_insertF (x y : List String) (f : List (List String)) : y ∈ insertF x f ↔ y = x ∨ y ∈ f := by
+  unfold insertF
+  by_cases h : f.contains x = true
+  · have hx : x ∈ f := by simpa using h
+    simp only [h, if_true]
+    constructor
+    · exact Or.inr
+    · rintro (rfl | h') <;> assumption
+  · simp only [h, Bool.false_eq_true, if_false, List.mem_append, List.mem_singleton]
+    exact Or.comm
+
+theorem mem_dedupF (y : List String) (f : List (List String)) : y ∈ dedupF f ↔ y ∈ f := by
+  unfold dedupF
+  suffices h : ∀ (acc : List (List String)), y ∈ f.foldl (fun acc x => insertF x acc) acc ↔ y ∈ acc ∨ y ∈ f by
+    simpa using h []
+  induction f with
+  | nil => intro acc; simp
+  | cons x xs ih =>
+    intro acc
+    simp only [List.foldl_cons]
+    rw [ih, mem_insertF, List.mem_cons]
+    constructor
+    · rintro ((h | h) | h)
+      · exact Or.inr (Or.inl h)
+      · exact Or.inl h
+      · exact Or.inr (Or.inr h)
+    · rintro (h | h | h)
+      · exact Or.inl (Or.inr h)
+      · exact Or.inl (Or.inl h)
+      · exact Or.inr h
+
+/-- the rebuilt OR gate admits every non-empty set that is the union of the cover members it contains -/
+theorem rebuilt_admits (c : List (List String)) (e : List String) (hne : e ≠ [])
+    (hexp : ∀ x ∈ e, ∃ p ∈ c, (∀ y ∈ p, y ∈ e) ∧ x ∈ p) : admits (rebuilt c) e = true := by
+  -- the cover members inside `e`
+  let S := c.filter fun p => subsetS p e
+  have hS : S ≠ [] := by
+    obtain ⟨x, hx⟩ := List.exists_mem_of_ne_nil e hne
+    obtain ⟨p, hp, hsub, _⟩ := hexp x hx
+    intro hnil
+    have : p ∈ S := List.mem_filter.mpr ⟨hp, subsetS_iff.mpr hsub⟩
+    rw [hnil] at this
+    simp at this
+  -- outcomes of the children, one each
+  have hfam : ∀ (l : List (List String)), ∃ os : List (List String),
+      (l.map fun p => outcomes (partGate p)) = os.map (fun o => [o]) ∧ os.length = l.length ∧
+      ∀ x, (∃ o ∈ os, x ∈ o) ↔ ∃ p ∈ l, x ∈ p := by
+    intro l
+    induction l with
+    | nil => exact ⟨[], rfl, rfl, by simp⟩
+    | cons p ps ih =>
+      obtain ⟨os, h1, h2, h3⟩ := ih
+      obtain ⟨o, ho, hm⟩ := outcomes_partGate p
+      refine ⟨o :: os, by simp [ho, h1], by simp [h2], ?_⟩
+      intro x
+      simp only [List.mem_cons, exists_eq_or_imp, hm, h3]
+  obtain ⟨osS, hS1, _, hS3⟩ := hfam S
+  obtain ⟨u, hu, hum⟩ := productAll_singletons osS
+  have hsub : (S.map fun p => outcomes (partGate p)).Sublist (c.map fun p => outcomes (partGate p)) :=
+    List.Sublist.map _ List.filter_sublist
+  have hmemS : (S.map fun p => outcomes (partGate p)) ∈ nonEmptySublists (c.map fun p => outcomes (partGate p)) :=
+    sublist_mem_nonEmptySublists _ _ hsub (by simpa using hS)
+  have hout : u ∈ outcomes (rebuilt c) := by
+    simp only [rebuilt, outcomes, outcomesL_map, List.mem_flatMap]
+    exact ⟨_, hmemS, by rw [hS1, hu]; exact List.mem_singleton.mpr rfl⟩
+  have hnorm : norm u = norm e := by
+    apply norm_ext
+    intro x
+    rw [hum, hS3]
+    constructor
+    · rintro ⟨p, hp, hx⟩
+      exact subsetS_iff.mp (List.mem_filter.mp hp).2 x hx
+    · intro hx
+      obtain ⟨p, hp, hsub', hxp⟩ := hexp x hx
+      exact ⟨p, List.mem_filter.mpr ⟨hp, subsetS_iff.mpr hsub'⟩, hxp⟩
+  unfold admits family
+  have : norm e ∈ dedupF ((outcomes (rebuilt c)).map norm) := by
+    rw [mem_dedupF, ← hnorm]
+    exact List.mem_map.mpr ⟨u, hout, rfl⟩
+  simpa using this
+
 end O2P.Gate
